@@ -76,7 +76,7 @@ def cases(draw):
                 hkeys=[draw(st.integers(0, 15)) for _ in range(n)],
                 order=list(draw(st.permutations(list(range(n))))),
                 top=draw(st.sampled_from(['pure', 'nestable'])), program=program, tree=tree,
-                ran=draw(st.integers(0, 3)) == 0)
+                ran=draw(st.integers(0, 3)) == 0, verbose=draw(st.integers(0, 4)) == 0)
 
 
 def strategy(tier):
@@ -120,6 +120,20 @@ def check_queries(sched, live, starts, res, tag, nontrivial):
             rot = (len(edges) + len(members)) % 4
             for name, call, want in queries[rot:] + queries[:rot]:
                 expect(name, call(), want)
+            # the reverse links are now up to date: the documented compute_backlinks=False
+            # shortcut must give the same answers
+            expect('successors(compute_backlinks=False)',
+                   list(sched.successors(*sobj, compute_backlinks=False)), direct_down)
+            expect('successors_downstream(compute_backlinks=False)',
+                   sched.successors_downstream(*sobj, compute_backlinks=False), down)
+            # ... also for one start job alone, after queries that had several
+            one = starts[0]
+            expect('successors(one start, compute_backlinks=False)',
+                   list(sched.successors(live[one], compute_backlinks=False)),
+                   {b for a, b in edges if a == one})
+            expect('successors_downstream(one start, compute_backlinks=False)',
+                   sched.successors_downstream(live[one], compute_backlinks=False),
+                   closure(members, edges, [one], True))
             if up != direct_up or down != direct_down:
                 nontrivial.append('closure-differs-from-direct')
             if len(starts) >= 2:
@@ -131,6 +145,8 @@ def check_queries(sched, live, starts, res, tag, nontrivial):
         expect('exit_jobs', list(sched.exit_jobs()), exits)
         expect('exit_jobs(discard_forever=False)',
                list(sched.exit_jobs(discard_forever=False)), exits_all)
+        expect('exit_jobs(compute_backlinks=False)',
+               list(sched.exit_jobs(compute_backlinks=False)), exits)
         if exits != exits_all:
             nontrivial.append('forever-exit-job')
 
@@ -202,6 +218,8 @@ def evaluate_inner(case):
             jobs[b].requires(outs[o])
         ordered = [jobs[i] for i in case['order']]
         sched = SPure('t', *ordered) if case['top'] == 'pure' else SSched('t', *ordered)
+        if case.get('verbose'):
+            sched.verbose = True
     forever_is_sink = not any(case['forever'][a] for a, b in case['edges'])
     if case.get('ran') and not case.get('out_edges') and not all(case['forever']) \
             and forever_is_sink:
